@@ -48,6 +48,10 @@ def near_misses(v, sel, val):
         cand.append((sel + ".[0]", "index-on-scalar"))
     if len(steps) >= 3:
         cand.append((".".join(steps[:1] + steps[2:]), "middle-step-removed"))
+    if not steps[-1].startswith("[") and len(steps[-1]) > 3:
+        cand.append((sel[:-1], "last-step-truncated"))          # a proper string prefix of the valid selector
+    if not steps[-1].startswith("["):
+        cand.append((sel + "x", "last-step-extended"))
     for s, kind in cand:
         if s and not harness.resolves(v, s) and len(s.split(".")[0]) >= 3:
             out.append((s, kind))
@@ -85,24 +89,34 @@ def entries(version, obj, dform, has_gm_prop, versionable):
     if has_gm_prop:
         def construct(sel):
             d = copy.deepcopy(dform)
-            d["granular_markings"] = [{"marking_ref": MREF, "selectors": [sel]}]
+            d["granular_markings"] = [{"marking_ref": MREF, "selectors": list(sel) if isinstance(sel, (list, tuple)) else [sel]}]
             return stix2.parse(d, allow_custom=False)
         out.append(("construction", "parse(dict)", construct))
 
         def construct2(sel):
             d = copy.deepcopy(dform)
-            d["granular_markings"] = [{"marking_ref": MREF, "selectors": [sel]}]
+            d["granular_markings"] = [{"marking_ref": MREF, "selectors": list(sel) if isinstance(sel, (list, tuple)) else [sel]}]
             return type(obj)(**d)
         out.append(("construction", "constructor", construct2))
+    L = lambda sel: list(sel) if isinstance(sel, (list, tuple)) else [sel]
+    omarks = dform.get("object_marking_refs") or []
     for form, target in (("function-on-object", obj), ("function-on-dict", dform)):
-        out.append((form, "get_markings", lambda sel, t=target: MK.get_markings(t, [sel])))
-        out.append((form, "is_marked", lambda sel, t=target: MK.is_marked(t, MREF, [sel])))
-        out.append((form, "get_markings(inherited,descendants)", lambda sel, t=target: MK.get_markings(t, [sel], inherited=True, descendants=True)))
+        out.append((form, "get_markings", lambda sel, t=target: MK.get_markings(t, L(sel))))
+        out.append((form, "is_marked", lambda sel, t=target: MK.is_marked(t, MREF, L(sel))))
+        out.append((form, "get_markings(inherited,descendants)", lambda sel, t=target: MK.get_markings(t, L(sel), inherited=True, descendants=True)))
+        # option combinations in which the object-level markings alone could already settle the answer
+        out.append((form, "is_marked(no marking,inherited)", lambda sel, t=target: MK.is_marked(t, None, L(sel), inherited=True)))
+        out.append((form, "is_marked(no marking,inherited,descendants)", lambda sel, t=target: MK.is_marked(t, None, L(sel), inherited=True, descendants=True)))
+        if omarks:
+            out.append((form, "is_marked(object-level marking,inherited)", lambda sel, t=target: MK.is_marked(t, omarks[0], L(sel), inherited=True)))
+            out.append((form, "is_marked(object-level markings,inherited)", lambda sel, t=target: MK.is_marked(t, list(omarks), L(sel), inherited=True)))
+        if form == "function-on-object" and hasattr(obj, "is_marked"):
+            out.append((form, "obj.is_marked(no marking,inherited)", lambda sel: obj.is_marked(None, L(sel), inherited=True)))
         if has_gm_prop and (versionable or form == "function-on-dict"):
-            out.append((form, "add_markings", lambda sel, t=target: MK.add_markings(t, MREF, [sel])))
-            out.append((form, "set_markings", lambda sel, t=target: MK.set_markings(t, MREF, [sel])))
-            out.append((form, "remove_markings", lambda sel, t=target: MK.remove_markings(t, MREF, [sel])))
-            out.append((form, "clear_markings", lambda sel, t=target: MK.clear_markings(t, [sel])))
+            out.append((form, "add_markings", lambda sel, t=target: MK.add_markings(t, MREF, L(sel))))
+            out.append((form, "set_markings", lambda sel, t=target: MK.set_markings(t, MREF, L(sel))))
+            out.append((form, "remove_markings", lambda sel, t=target: MK.remove_markings(t, MREF, L(sel))))
+            out.append((form, "clear_markings", lambda sel, t=target: MK.clear_markings(t, L(sel))))
     return out
 
 
@@ -198,6 +212,16 @@ def explore(case, part, version, obj, dform, has_gm, versionable):
                 if vd == "accepted":
                     part.violation("C08/invalid-selector-accepted/%s/%s" % (nkind, eclass), "a selector that addresses nothing is accepted", dict(case, selector=nsel, entry=ename, derived_from=sel),
                                    "refused", "accepted")
+                if nkind in ("last-step-truncated", "last-step-extended", "absent-sibling") and not (eclass in ("construction", "function-on-object") and not syntax_ok(sel)):
+                    # the same near miss inside a LIST next to the valid selector it derives from, in both orders: one bad selector spoils the list
+                    for order, lst in (("valid-first", [sel, nsel]), ("invalid-first", [nsel, sel])):
+                        part.evaluations += 1
+                        part.transitions += 1
+                        vd2, err2 = verdict(lambda: call(lst))
+                        part.outcome("near-miss-in-list:" + vd2)
+                        if vd2 == "accepted":
+                            part.violation("C08/invalid-selector-accepted/%s-in-list-%s/%s" % (nkind, order, eclass), "a selector list containing a selector that addresses nothing is accepted",
+                                           dict(case, selector=nsel, entry=ename, derived_from=sel, list=lst), "refused", "accepted")
 
 
 def replay(case, part):
